@@ -221,6 +221,16 @@ pub fn run_c02(a: &Args) {
                 ops.push(Op::AddEdge(MEdge::new(x, y, draw_weight(wmode, &mut rng), Some(k))));
             }
         }
+        if specs.multi && idx % 8 == 3 && names.len() >= 3 {
+            // a node whose edge list is longer than 20: twelve distinguishable parallel edges to
+            // each of two neighbours, interleaved
+            let hub = names[0].clone();
+            for k in 0..24 {
+                let other = names[1 + (k % 2)].clone();
+                let (x, y) = if k % 3 == 0 { (&other, &hub) } else { (&hub, &other) };
+                ops.push(Op::AddEdge(MEdge::new(x, y, draw_weight(wmode, &mut rng), Some(100 + k as i32))));
+            }
+        }
         if idx % 5 == 4 {
             // a larger graph: 24-40 filler nodes around the small query universe
             let fillers: Vec<(String, Option<i32>)> = (0..rng.range(24, 40)).map(|i| (format!("n{:02}", i), None)).collect();
@@ -1231,4 +1241,60 @@ pub fn run_c15(a: &Args) {
             }
         }
     }
+    // source graphs of 1100..3000 nodes: selections of 3, 1024, 1025 names and of every name
+    for k in 0..(if a.thorough { 6 } else { 2 }) {
+        if ctx::mine(total + k) {
+            c15_big(a, k);
+        }
+    }
+}
+
+fn c15_big(a: &Args, k: u64) {
+    let mut rng = Rng::new(mix(a.seed ^ 0xC15_B16, k));
+    let specs = Specs::kind(k % 2 == 0, (k / 2) % 2 == 1, true);
+    let n = rng.range(1100, 3000);
+    let names: Vec<String> = (0..n).map(|i| format!("s{:04}", (i * 7919) % n)).collect();
+    let mut g: G = Graph::new(specs.to_real());
+    for nm in &names {
+        g.add_node(graphrs::Node::from_name(nm.clone()));
+    }
+    let mut edges: Vec<(usize, usize, f64, Option<i32>)> = vec![];
+    for i in 1..n {
+        edges.push((i - 1, i, (i % 9) as f64 + 0.5, Some(i as i32)));
+    }
+    for j in 0..n {
+        let (u, v) = (rng.below(n), rng.below(n));
+        edges.push((u, v, (j % 5) as f64 + 1.0, None));
+    }
+    for (u, v, w, at) in &edges {
+        let _ = g.add_edge(std::sync::Arc::new(graphrs::Edge { u: names[*u].clone(), v: names[*v].clone(), attributes: *at, weight: *w }));
+    }
+    ctx::case_desc(json!({"family": "path plus random edges", "n": n, "kind": specs.kind_label()}));
+    ctx::count("reach:source-graph-with-more-than-1024-nodes");
+    let kind = kind_class(&g);
+    let d = specs.directed;
+    let stored: Vec<(String, String, String)> = g.get_all_edges().iter().map(|e| (e.u.clone(), e.v.clone(), ekey(d, &e.u, &e.v, e.weight, &e.attributes))).collect();
+    for size in [3usize, 1024, 1025, n] {
+        let mut sel: Vec<String> = (0..size.min(n)).map(|i| names[(i * 13 + 5) % n].clone()).collect();
+        sel.sort();
+        sel.dedup();
+        sel.reverse();
+        let sset: BTreeSet<&String> = sel.iter().collect();
+        ctx::eval(1);
+        match guard("get_subgraph", || g.get_subgraph(&sel)) {
+            Err(c) => ctx::violation(&format!("C15|get_subgraph|{}|{}", c.class(), kind), "get_subgraph panicked", json!({"caught": c.json(), "source_nodes": n, "requested": sel.len()})),
+            Ok(sub) => {
+                let got_nodes: BTreeSet<String> = sub.get_all_nodes().iter().map(|x| x.name.clone()).collect();
+                let want_nodes: BTreeSet<String> = sel.iter().cloned().collect();
+                let mut got_edges: Vec<String> = sub.get_all_edges().iter().map(|e| ekey(d, &e.u, &e.v, e.weight, &e.attributes)).collect();
+                got_edges.sort();
+                let mut want_edges: Vec<String> = stored.iter().filter(|(u, v, _)| sset.contains(u) && sset.contains(v)).map(|x| x.2.clone()).collect();
+                want_edges.sort();
+                if got_nodes != want_nodes || got_edges != want_edges {
+                    ctx::violation(&format!("C15|get_subgraph|not-the-induced-subgraph|{}", kind), "get_subgraph of a large graph is not the induced subgraph", json!({"source_nodes": n, "requested": sel.len(), "nodes_got": got_nodes.len(), "edges_got": got_edges.len(), "edges_want": want_edges.len()}));
+                }
+            }
+        }
+    }
+    ctx::nontrivial(mix(0xC15_B16, k));
 }
